@@ -142,6 +142,15 @@ CHECKS = {
             'error (never "<exception str() failed>").',
             'Completed earlier chain steps and unchanged-target Target lines are optional; value renderings are matched up to the documented truncation; real traceback formatting is used (no stub).',
             '3/C05'),
+    'C19': ('model_checking',
+            'bounded exhaustive enumeration of (target, literal spec, source, format, flags) combinations driven through cli.main with the library as oracle; exhaustive grammar of executable spec texts under an audit hook and canary',
+            '18 JSON-representable targets x literal specs generated from each target (paths, dict/list/tuple nestings, a failing variant per position) x 5 target sources '
+            '(argv, file, -, --target-file -, implicit stdin) x 2 spec sources x 4 target formats x 2 spec formats x indent/--scalar/bare-string settings: stdout and exit status equal '
+            'json.dumps(glom(target, spec), indent, sort_keys=True) / status 1 naming the GlomError; 13 malformed / unreadable inputs give a usage error and empty stdout; 25 payload '
+            'expressions x 28 embeddings x {argv, spec file} in the default spec format: canary untouched and no exec of non-file code (sys.addaudithook). Thorough repeats every '
+            '(target, spec) pair through a real `python -m glom` sub-process.',
+            'In-process driving replaces sys.stdin/stdout/stderr; a malformed spec may surface the literal parser\'s exception.',
+            '3/C19'),
 }
 
 NOT_YET = {}
